@@ -198,6 +198,42 @@ func c08Cache(c *Ctx, i int, r *gen.Rng) {
 		all = append(all, h...)
 	}
 	res, info := porcupine.CheckOperationsVerbose(c08Model, all, 60*time.Second)
+	// what was interleaved (from the recorded call/return stamps): operations on the same key whose
+	// intervals overlap, Compute calls that lost to a concurrent Compute of the same key, and
+	// Gets that overlapped the Compute that first filled their key
+	{
+		byKey := map[int][]porcupine.Operation{}
+		for _, op := range all {
+			k := op.Input.(c08In).Key
+			byKey[k] = append(byKey[k], op)
+		}
+		var overlapPairs, lostComputes, getsDuringFill int64
+		for _, ops := range byKey {
+			sort.Slice(ops, func(a, b int) bool { return ops[a].Call < ops[b].Call })
+			for a := 0; a < len(ops); a++ {
+				for b := a + 1; b < len(ops) && ops[b].Call < ops[a].Return; b++ {
+					overlapPairs++
+					ia, ib := ops[a].Input.(c08In), ops[b].Input.(c08In)
+					oa, ob := ops[a].Output.(c08Out), ops[b].Output.(c08Out)
+					if !ia.Get && !ib.Get && !ia.Err && !ib.Err && (oa.Val != ia.Val || ob.Val != ib.Val) {
+						lostComputes++
+					}
+					if ia.Get != ib.Get {
+						cmp, cin := oa, ia
+						if ia.Get {
+							cmp, cin = ob, ib
+						}
+						if !cin.Err && cmp.Val == cin.Val {
+							getsDuringFill++
+						}
+					}
+				}
+			}
+		}
+		c.Count("cache_same_key_operation_pairs_overlapping_in_time", overlapPairs)
+		c.Count("cache_computes_that_lost_to_an_overlapping_compute", lostComputes)
+		c.Count("cache_gets_overlapping_the_compute_that_filled_the_key", getsDuringFill)
+	}
 	c.Count("cache_histories", 1)
 	c.Count("cache_operations", int64(len(all)))
 	c.Count(fmt.Sprintf("cache_histories_keys_%s", map[bool]string{false: "few", true: "many"}[big]), 1)
@@ -379,18 +415,40 @@ func c08Codecs(c *Ctx, i int, r *gen.Rng) {
 	}
 	start := make(chan struct{})
 	var wg sync.WaitGroup
+	// overlap bookkeeping per call (= per type and entry point), only without the race detector
+	// (atomics are synchronisation to it and would mask races between the calls)
+	observe := !strings.Contains(c.Mode, "race")
+	inflight := make([]int32, len(calls))
+	var sameCallOverlaps, firstUseOverlaps int64
+	firstDone := make([]int32, len(calls))
 	for g := 0; g < G; g++ {
 		wg.Add(1)
 		go func(g int) {
 			defer wg.Done()
 			<-start
 			for _, k := range orders[g] {
+				if observe {
+					if atomic.AddInt32(&inflight[k], 1) > 1 {
+						atomic.AddInt64(&sameCallOverlaps, 1)
+						if atomic.LoadInt32(&firstDone[k]) == 0 {
+							atomic.AddInt64(&firstUseOverlaps, 1)
+						}
+					}
+				}
 				results[g][k] = calls[k].run()
+				if observe {
+					atomic.AddInt32(&inflight[k], -1)
+					atomic.StoreInt32(&firstDone[k], 1)
+				}
 			}
 		}(g)
 	}
 	close(start)
 	wg.Wait()
+	if observe {
+		c.Count("codec_calls_overlapping_the_same_call_on_another_goroutine", sameCallOverlaps)
+		c.Count("codec_calls_overlapping_before_the_first_such_call_returned(first use / compilation)", firstUseOverlaps)
+	}
 	// the sequential oracle: the same calls, alone
 	for k, cl := range calls {
 		want := cl.run()
